@@ -14,7 +14,7 @@ import (
 // operand replaced by a distinct plain placeholder, then the placeholders
 // replaced by the real contents -- so the verdict does not depend on the model.
 func judgeC08(rep *lib.Report, c *lib.Ctx, ln *printerLine, res *realResult, kase json.RawMessage) {
-	if res.Panicked || !lib.HasKind(ln.C.Ts, "rstring", "rbytes") {
+	if res.Panicked || !lib.HasKind(ln.C.Ts, "rstring", "rbytes", "builder") {
 		return
 	}
 	desc := caseString(c, ln.C)
@@ -35,8 +35,24 @@ func judgeC08(rep *lib.Report, c *lib.Ctx, ln *printerLine, res *realResult, kas
 				}
 				t.ID += 5000 // not the memoised value of the real run
 			}
+			if t.K == "builder" {
+				// a StringBuilder operand stands for the redactable it holds (StringBuilder.SafeFormat): content from a real
+				// builder fed with the calls; under Unsafe() the builder is a Stringer instead (C06's subject: skipped)
+				var sb redact.StringBuilder
+				c.RunWriterOps(t.Scr, &sb, &sb)
+				p := fmt.Sprintf("@@%d@@", len(contents))
+				contents[p] = []byte(sb.RedactableString())
+				t.K, t.Scr, t.B = "rstring", nil, nil
+				for _, b := range []byte(p) {
+					t.B = append(t.B, int(b))
+				}
+				t.ID += 5000
+			}
 			mark(t.Xs)
 		}
+	}
+	if lib.HasKind(ln.C.Ts, "builder") && lib.HasKind(ln.C.Ts, "unsafe") {
+		return
 	}
 	mark(ph.Ts)
 	pc := lib.NewCtx(nil)
